@@ -54,45 +54,103 @@ Qed.
 
 Lemma add_owners_effect : forall st id l st' sc,
   find_scope st id = Some sc -> step st (MAddOwners id l) = (st', true) ->
-  find_scope st' id = Some (Sc id (sc_spec sc) (sc_owners sc ++ l) (sc_da sc)) /\
-  l <> [] /\ (forall a, In a l -> ~ In a (sc_owners sc)) /\
+  find_scope st' id = Some (ScR id (sc_spec sc) (sc_owners sc ++ l) (sc_da sc) (sc_rollup sc)) /\
+  l <> [] /\ (forall a, In a l -> ~ In (p_same a) (map p_same (sc_owners sc))) /\
+  optional_ok (sc_rollup sc) (sc_owners sc ++ l) = true /\
   isSome (find_sspec st (sc_spec sc)) = true.
 Proof.
   intros st id l st' sc Hf H. pose proof (find_scope_id _ _ _ Hf) as Hid.
   cbn [step] in H. destruct (owners_basic l) eqn:Eb; cbn [negb] in H; [|discriminate H].
   rewrite Hf in H.
-  destruct (existsb (fun a => memz a (sc_owners sc)) l) eqn:Ee; cbn [orb] in H; [discriminate H|].
-  destruct (owners_basic (sc_owners sc ++ l)) eqn:Eo; cbn [negb orb] in H; [|discriminate H].
+  destruct (existsb (fun a => memz (p_same a) (map p_same (sc_owners sc))) l) eqn:Ee; cbn [orb] in H; [discriminate H|].
+  destruct (owners_ok (sc_rollup sc) (sc_owners sc ++ l)) eqn:Eo; cbn [negb orb] in H; [|discriminate H].
   destruct (isSome (find_sspec st (sc_spec sc))) eqn:Es; cbn [negb] in H; [|discriminate H].
   unfold ok in H. inversion H; subst st'. clear H. splits.
-  - subst id. exact (find_scope_set st (Sc (sc_id sc) (sc_spec sc) (sc_owners sc ++ l) (sc_da sc))).
+  - subst id. exact (find_scope_set st (ScR (sc_id sc) (sc_spec sc) (sc_owners sc ++ l) (sc_da sc) (sc_rollup sc))).
   - intros ->. discriminate Eb.
   - intros a Ha Hin.
-    assert (existsb (fun a => memz a (sc_owners sc)) l = true) as Ht.
+    assert (existsb (fun a => memz (p_same a) (map p_same (sc_owners sc))) l = true) as Ht.
     { apply existsb_exists. exists a; split; auto. unfold memz. apply existsb_exists.
-      exists a; split; auto. apply Z.eqb_refl. }
+      exists (p_same a); split; auto. apply Z.eqb_refl. }
     congruence.
+  - unfold owners_ok in Eo. apply andb_true_iff in Eo. destruct Eo as [Eo _].
+    apply andb_true_iff in Eo. tauto.
   - reflexivity.
 Qed.
 Print Assumptions add_owners_effect.
 
 Lemma del_owners_effect : forall st id l st' sc,
   find_scope st id = Some sc -> step st (MDelOwners id l) = (st', true) ->
-  find_scope st' id = Some (Sc id (sc_spec sc) (drop_all l (sc_owners sc)) (sc_da sc)) /\
-  drop_all l (sc_owners sc) <> [] /\ (forall a, In a l -> In a (sc_owners sc)).
+  find_scope st' id = Some (ScR id (sc_spec sc) (drop_addrs l (sc_owners sc)) (sc_da sc) (sc_rollup sc)) /\
+  drop_addrs l (sc_owners sc) <> [] /\ (forall a, In a l -> In a (map p_entry (sc_owners sc))).
 Proof.
   intros st id l st' sc Hf H. pose proof (find_scope_id _ _ _ Hf) as Hid.
   cbn [step] in H. destruct l as [|x l]; [discriminate H|]. rewrite Hf in H.
-  destruct (forallb (fun a => memz a (sc_owners sc)) (x :: l)) eqn:Ef; cbn [negb orb] in H; [|discriminate H].
-  destruct (owners_basic (drop_all (x :: l) (sc_owners sc))) eqn:Eo; cbn [negb orb] in H; [|discriminate H].
+  destruct (forallb (fun a => memz a (map p_entry (sc_owners sc))) (x :: l)) eqn:Ef; cbn [negb orb] in H; [|discriminate H].
+  destruct (owners_ok (sc_rollup sc) (drop_addrs (x :: l) (sc_owners sc))) eqn:Eo; cbn [negb orb] in H; [|discriminate H].
   destruct (isSome (find_sspec st (sc_spec sc))) eqn:Es; cbn [negb] in H; [|discriminate H].
   unfold ok in H. inversion H; subst st'. clear H. splits.
-  - subst id. exact (find_scope_set st (Sc (sc_id sc) (sc_spec sc) (drop_all (x :: l) (sc_owners sc)) (sc_da sc))).
+  - subst id. exact (find_scope_set st (ScR (sc_id sc) (sc_spec sc) (drop_addrs (x :: l) (sc_owners sc)) (sc_da sc) (sc_rollup sc))).
   - intros E. rewrite E in Eo. discriminate Eo.
   - intros a Ha. rewrite forallb_forall in Ef. specialize (Ef a Ha). unfold memz in Ef.
     apply existsb_exists in Ef. destruct Ef as (y & Hy & Heq). apply Z.eqb_eq in Heq. subst; auto.
 Qed.
 Print Assumptions del_owners_effect.
+
+(** every owner party is listed under its address, optional or not, whatever its role *)
+Lemma every_owner_party_listed : forall ops sc p, In sc (scopes (run ops)) -> In p (sc_owners sc) ->
+  In (acct p, sc_id sc) (ix_as (run ops)).
+Proof.
+  intros ops sc p Hsc Hp. destruct (indexes_exact ops) as (I1 & _). apply I1.
+  exists sc; split; auto. unfold scope_keys_as. apply in_map_iff. exists p; split; auto.
+  apply in_or_app; right; exact Hp.
+Qed.
+Print Assumptions every_owner_party_listed.
+
+(** the flag flip required -> optional of a party (a WriteScope) keeps its entry *)
+Lemma optional_flip_keeps_entry :
+  let ops := [MWriteCSpec (Cs 1 [1]); MWriteSSpec (Ss 1 [1] [1]);
+              MWriteScope (ScR 1 1 [1; 1002] [] true) 0; MWriteScope (ScR 1 1 [1; 101002] [] true) 0;
+              MWriteScope (ScR 1 1 [1; 101002] [] false) 0; MAddOwners 1 [102003]; MAddOwners 1 [103]] in
+  map snd (snd (fold_left (fun acc o => let '(st', b) := step (fst acc) o in (st', snd acc ++ [(o, b)])) ops (init, [])))
+    = [true; true; true; true; false; true; true] /\
+  ix_as (run ops) = [(3, 1); (2, 1); (1, 1)] /\
+  scopes (run ops) = [ScR 1 1 [1; 101002; 102003; 103] [] true].
+Proof. vm_compute. repeat split. Qed.
+
+(** * G' : deleting a contract specification by message leaves none of its record specifications *)
+Lemma delete_cspec_clean : forall st id st', Inv st -> step st (MDeleteCSpec id) = (st', true) ->
+  find_cspec st' id = None /\ (forall r, In r (rspecs st') -> rs_cspec r <> id) /\
+  (forall a, ~ In (a, id) (ix_ac st')) /\ (forall x, ~ In (id, x) (ix_cs st')).
+Proof.
+  intros st id st' HI H. cbn [step] in H.
+  destruct (isSome (find_cspec st id)) eqn:Ef; [|discriminate H].
+  set (st1 := with_rspecs st (filter (fun x => negb (rs_cspec x =? id)) (rspecs st))) in *.
+  assert (Inv st1) as HI1 by (apply Inv_with_rspecs_filter; exact HI).
+  unfold of_opt in H. destruct (remove_cspec st1 id) as [s2|] eqn:Er; [|discriminate H].
+  inversion H; subst s2. clear H.
+  pose proof (Inv_remove_cspec _ _ _ Er HI1) as ((_&_&_&_&U5&_)&(_&_&_&_&I5)).
+  unfold remove_cspec in Er. destruct (cspec_used st1 id) eqn:Eu; [discriminate Er|].
+  destruct (find_cspec st1 id) as [c|] eqn:Ec; [|discriminate Er]. inversion Er; subst st'. clear Er.
+  sproj. splits.
+  - unfold find_cspec; sproj. apply (find_filter_negb (fun s => cs_id s =? id)).
+  - intros r Hr. unfold st1 in Hr; sproj. apply filter_In in Hr. destruct Hr as [_ Hr].
+    apply negb_true_iff, Z.eqb_neq in Hr. exact Hr.
+  - intros a Hin. apply I5 in Hin. destruct Hin as (b & Hb & Hk). sproj.
+    apply filter_In in Hb. destruct Hb as [_ Hb]. apply negb_true_iff, Z.eqb_neq in Hb.
+    apply keys_ac_id in Hk. cbn [snd] in Hk. congruence.
+  - intros x Hin. unfold cspec_used in Eu.
+    assert (existsb (fun k => fst k =? id) (ix_cs st1) = true) as Ht.
+    { apply existsb_exists. exists (id, x); split; [exact Hin | apply Z.eqb_refl]. }
+    congruence.
+Qed.
+Print Assumptions delete_cspec_clean.
+
+Lemma delete_cspec_clean_run : forall ops id st', step (run ops) (MDeleteCSpec id) = (st', true) ->
+  find_cspec st' id = None /\ (forall r, In r (rspecs st') -> rs_cspec r <> id) /\
+  (forall a, ~ In (a, id) (ix_ac st')) /\ (forall x, ~ In (id, x) (ix_cs st')).
+Proof. intros ops id st' H. eapply delete_cspec_clean; [apply Inv_run | exact H]. Qed.
+Print Assumptions delete_cspec_clean_run.
 
 (** * H *)
 Definition loc_op (o : op) : bool :=
